@@ -1020,3 +1020,18 @@ func phiCyclic(p *ssa.Phi) bool {
 	}
 	return walk(p, 0)
 }
+
+// realRefs lists the referrers of v that are not debug references.
+func realRefs(v ssa.Value) []ssa.Instruction {
+	var out []ssa.Instruction
+	if v == nil || v.Referrers() == nil {
+		return nil
+	}
+	for _, r := range *v.Referrers() {
+		if _, ok := r.(*ssa.DebugRef); ok {
+			continue
+		}
+		out = append(out, r)
+	}
+	return out
+}
